@@ -47,7 +47,9 @@ FULLND = dict(FULL, defer=False)
 # refused creations (identifier in use) followed by GC / re-open: a refusal must leave no trace
 IDGC = dict(FULL, ops=["mk_group", "rename", "gc", "reopen"], uid_reuse=True, defer=False, pg_foreign=False, retype=False, ws2=False,
             caps={"groups": 3, "objects": 2, "data_per_object": 2, "entities": 8})
-ALPHAS = {"IDGC": IDGC, "FULLND": FULLND, "FULL": FULL, "STRUCT": STRUCT, "EDIT": EDIT, "DEL": DEL, "DELCORE": DELCORE, "IDS": IDS, "GCOPS": GCOPS}
+# re-assigning data types (shared, then un-shared) with purges of unused types in between
+RETYPE = dict(FULL, ops=["rm_ws", "gc", "reopen", "values"], retype=True, defer=False, pg_foreign=False, ws2=False)
+ALPHAS = {"RETYPE": RETYPE, "IDGC": IDGC, "FULLND": FULLND, "FULL": FULL, "STRUCT": STRUCT, "EDIT": EDIT, "DEL": DEL, "DELCORE": DELCORE, "IDS": IDS, "GCOPS": GCOPS}
 
 DROP_ASC = {"uid_order": "asc", "policy": "drop"}
 HOLD_DESC = {"uid_order": "desc", "policy": "hold"}
